@@ -199,7 +199,7 @@ theorem cov_merge_is_spec (a b : Cov) (ps qs : List (Rat × Rat)) (ha : CovRep a
       · simp [ne_of_gt hqp]
       · have hpp := length_cast_pos ps hp
         first
-        | exact chan_mu3 _ _ _ _ (fun h => absurd h (ne_of_gt hpp)) (ne_of_gt hqp)
+        | exact chan_mu_delta _ _ _ _ hpp hqp
         | exact chan_ck _ _ _ _ _ _ _ _ hpp hqp
 
 -- OBLIGATION: PysparklingVerif.C17.cov_any_partitioning
